@@ -1,6 +1,7 @@
 (* C04 -- the pilot scheduler neither loses nor starves tasks.  Statements only. *)
 From Coq Require Import ZArith List Bool Sorted.
-From RP Require Import Sched.Model Sched.NodeMap Sched.Inv Sched.SchedProofs Sched.RunProofs Sched.LiveProofs.
+From RP Require Import Sched.Model Sched.NodeMap Sched.Inv Sched.SchedProofs Sched.RunProofs Sched.LiveProofs
+                       Sched.CancelProofs Sched.ConsProofs.
 Import ListNotations.
 Open Scope Z_scope.
 
@@ -51,10 +52,35 @@ Theorem C04_search_exceptions :
 Proof. exact schedule_task_err. Qed.
 Print Assumptions C04_search_exceptions.
 
-(* PARTIAL: "exactly one of started / waiting / failed / canceled, reported at
-   most once" and "an idle pilot starts a fitting waiter" are decided on every
-   implementation trace by the oracle clauses of harness/c04.py and through the
-   model correspondence; they are not yet stated as theorems over all histories. *)
+(* Nothing is lost and nothing is duplicated, for EVERY history of arrivals,
+   cancel requests, releases, named-environment registrations and iterations,
+   with every bisect strategy:  for every uid u, the number of terminal events
+   (started / failed / canceled) for u, plus its entries in the wait pools,
+   plus its entries in the scheduler's queue never exceeds the number of times
+   u arrived, and a uid that arrived is in at least one of these places. *)
+Theorem C04_no_loss_no_duplication :
+  forall c ns0 ops w' u,
+    run c (init_world ns0) ops = Some w' ->
+    total u w' <= cz u (arrivals ops) /\ (In u (arrivals ops) -> present u w').
+Proof. exact no_loss_no_duplication. Qed.
+Print Assumptions C04_no_loss_no_duplication.
+
+(* hence, with unique task uids: every task handed to the scheduler is at any
+   time in EXACTLY one of: started, failed, canceled (reported exactly once
+   there), waiting, or queued for the next iteration *)
+Theorem C04_exactly_one_place :
+  forall c ns0 ops w' u,
+    run c (init_world ns0) ops = Some w' -> NoDup (arrivals ops) -> In u (arrivals ops) ->
+    total u w' = 1.
+Proof. exact exactly_one_place. Qed.
+Print Assumptions C04_exactly_one_place.
+
+(* PARTIAL: "a task waiting alone is started as soon as enough resources are
+   released" and "an idle pilot starts a fitting waiter" are decided on every
+   implementation trace by the oracle clause idle_pilot_starts_a_fitting_waiter
+   of harness/c04.py and through the model correspondence; they are not stated
+   as theorems over all histories (wall-clock "as soon as" is counted in loop
+   iterations). *)
 
 Example C04_nonvacuous :
   let ns0 := [mkNode 0 [Free; Free] [] 0 0] in
